@@ -92,6 +92,9 @@ func genKnobs(r *core.Rand) Knobs {
 	for i := r.Intn(2); i > 0; i-- {
 		k.WarmBufs = append(k.WarmBufs, r.Pick(0, 16, 512))
 	}
+	if r.Chance(1, 2) {
+		k.ExtraCodecs = 1 + r.Intn(4)
+	}
 	return k
 }
 
@@ -388,6 +391,9 @@ func oracleStream(prop string, mr *muxRun, rs *reqState, cnt *[core.NumCounters]
 		if fault == "abort" || fault == "wbreak" {
 			return nil // the client left (or the connection broke) before dispatch
 		}
+		if sp.Backend != "" && (fault == "cut" || fault == "readerr") {
+			return nil // the proxy reads the first message before it calls the backend: broken there, the call fails at once
+		}
 		if rs.method.Shape() == "unary" && (fault == "cut" || fault == "readerr") {
 			return nil // a unary request is decoded before the handler is called: a broken body is refused there
 		}
@@ -466,7 +472,9 @@ func oracleStream(prop string, mr *muxRun, rs *reqState, cnt *[core.NumCounters]
 					return fail("recv-missing-message", "handler received %d of %d complete messages before the stream ended (err=%v)", len(l.Recv), nComplete, l.RecvErr)
 				}
 			case rs.cutMid || fault == "readerr":
-				if len(l.Recv) != nComplete {
+				// (through the proxy the cancellation of the backend call may
+				// overtake messages still in flight: a prefix, then the error)
+				if len(l.Recv) != nComplete && sp.Backend == "" {
 					return fail("recv-missing-message", "handler received %d messages, %d were completely delivered before the stream broke at byte %d (err=%v)", len(l.Recv), nComplete, rs.end, l.RecvErr)
 				}
 				if l.RecvErr == nil || l.RecvErr == io.EOF {
@@ -486,6 +494,12 @@ func oracleStream(prop string, mr *muxRun, rs *reqState, cnt *[core.NumCounters]
 	// ---- (b) what the client received ------------------------------------------
 	cv := rs.decodeResponse(resp)
 	writeFault := fault == "abort" || fault == "wbreak"
+	if sp.Backend != "" && (fault == "readerr" || fault == "cut" && rs.cutMid) {
+		// the request side of a proxied stream broke: the proxy ends the
+		// backend call, so what the backend still manages to send and which
+		// status the client sees are not prescribed
+		writeFault = true
+	}
 	if cv.Err != nil && !writeFault {
 		return fail("response-undecodable", "%v", cv.Err)
 	}
@@ -546,6 +560,17 @@ func oracleStream(prop string, mr *muxRun, rs *reqState, cnt *[core.NumCounters]
 			}
 		} else if len(cv.Msgs) > l.Sent+1 {
 			return fail("response-count", "client decoded %d messages, handler sent %d", len(cv.Msgs), l.Sent)
+		}
+	}
+	// what the handler handed to Send stays the handler's: larking must not
+	// have modified it (or parked it in a pool for others to overwrite)
+	for i, m := range l.SentMsgs {
+		var wp []byte
+		if l.SentIdx[i] < len(sp.Handler.Resps) {
+			wp = payloadFor(sp.payloadID(), l.SentIdx[i], 'S', sp.Handler.Resps[l.SentIdx[i]])
+		}
+		if want := rs.method.mkResp(wp); !proto.Equal(m, want) {
+			return fail("handler-owned-message-modified", "the response message #%d that the handler passed to Send was changed afterwards: now %s, was %s", l.SentIdx[i], msgPreview(m), msgPreview(want))
 		}
 	}
 	// final status
